@@ -44,14 +44,14 @@ META = {
              "decides row i by draw i only (selectRand_own_draw); every decision is 'kept with certainty, factor 1', 'kept iff own draw u "
              "satisfies u*sf<1, carrying that sf>1' or 'rejected by Add (size<1)' (kept_factor_is_inverse_probability, kept_factor_ge_one); "
              "factor x keep-probability lies in [1, 1+sf/2^53) so count/sum/sumsq keep their expectation (keep_iff_below_threshold, "
-             "threshold_bounds, expectation_preserved); NoSampleAgent partitions are kept whole in either loop. The model is tied to the "
+             "threshold_bounds, expectation_preserved); in agent mode every accepted row of a NoSampleAgent metric is kept with factor 1 "
+             "(no_sample_agent_kept, end to end through all hierarchy levels, all modes, both variants). The model is tied to the "
              "code by replaying every generated bucket on the real sampler and on the compiled model and diffing every row's decision, "
              "factor bits, quota and the MetricGroups statistics."),
     "note": ("Genuine defect found and fixed by fixes/C05-sample-fit.diff: an over-quota fixed-budget metric stops the keep loop, later groups that fit "
              "reach sample() with sf<=1; a single row is then kept with factor sf<1 (oracle sig kept-factor-below-one; Lean witness "
              "orig_keeps_row_with_factor_below_one). The model/theorems describe the fixed code (Variant.fitKeep); the pinned code is Variant.orig. "
-             "Partial: no_sample_agent_kept_partial is per level of the hierarchy (the end-to-end statement is checked by the oracle only); "
-             "the exception 'rows with size estimate < 1 are discarded by Add with factor MaxFloat32' is part of the statement. Trusted: Lean kernel, "
+             "No theorem is partial; the exception 'rows with size estimate < 1 are discarded by Add with factor MaxFloat32' is part of the statement. Trusted: Lean kernel, "
              "correspondence on generated buckets (quick 2500, thorough 60000), float64 division being correctly rounded."),
     "design_ref": "DESIGN.md §6 C05",
 }
